@@ -71,9 +71,12 @@ pub enum Shape {
     MapTail,
     /// AdjacencyMap only: V = {0, 1, 2^40}, arcs 0->2^40, 2^40->1 (an id that no vector may be sized by)
     MapFar,
+    /// AdjacencyMap only: no vertex at all - not constructible directly, but reachable through the safe
+    /// API as `filter_vertices(|_| false)` (and from there through complement / converse / union)
+    MapEmpty,
 }
 
-pub const SHAPES: [Shape; 10] = [
+pub const SHAPES: [Shape; 11] = [
     Shape::Trivial,
     Shape::Path4,
     Shape::Cycle5,
@@ -84,6 +87,7 @@ pub const SHAPES: [Shape; 10] = [
     Shape::MapHigh,
     Shape::MapTail,
     Shape::MapFar,
+    Shape::MapEmpty,
 ];
 
 impl Shape {
@@ -99,6 +103,7 @@ impl Shape {
             Shape::MapHigh => "maphigh",
             Shape::MapTail => "maptail",
             Shape::MapFar => "mapfar",
+            Shape::MapEmpty => "mapempty",
         }
     }
     /// The model digraph of the shape: built once, handed out by reference (cloning ordered sets is as
@@ -126,10 +131,11 @@ impl Shape {
             Shape::MapHigh => Dg::from_parts([0, 1, 7], [(0, 7), (7, 1)]),
             Shape::MapTail => Dg::from_parts([0, 1, 70], [(70, 0), (0, 1)]),
             Shape::MapFar => Dg::from_parts([0, 1, 1 << 40], [(0, 1 << 40), (1 << 40, 1)]),
+            Shape::MapEmpty => Dg::from_parts([], []),
         }
     }
     pub fn contiguous(self) -> bool {
-        !matches!(self, Shape::MapGap | Shape::MapHigh | Shape::MapTail | Shape::MapFar)
+        !matches!(self, Shape::MapGap | Shape::MapHigh | Shape::MapTail | Shape::MapFar | Shape::MapEmpty)
     }
 }
 
@@ -163,8 +169,8 @@ impl Id {
     }
     pub fn of(self, d: &Dg) -> usize {
         match self {
-            Id::In0 => *d.v.iter().next().unwrap(),
-            Id::InLast => *d.v.iter().next_back().unwrap(),
+            Id::In0 => d.v.iter().next().copied().unwrap_or(0),
+            Id::InLast => d.v.iter().next_back().copied().unwrap_or(0),
             Id::Order => d.order(),
             Id::OrderP1 => d.order() + 1,
             Id::Far => 1 << 40,
@@ -505,6 +511,9 @@ mod mk {
         AdjacencyList::from(d.rows())
     }
     fn build_M(d: &Dg) -> AdjacencyMap {
+        if d.v.is_empty() {
+            return AdjacencyMap::empty(1).filter_vertices(|_| false);
+        }
         if d.is_contiguous() {
             let mut m = AdjacencyMap::empty(d.order());
             for &(u, v) in &d.a {
@@ -858,7 +867,10 @@ pub fn body(p: &Prog) -> u64 {
         }),
         "eq_hash_clone" => on!(p, d, [L, M, X, E, WI, WU], |g| {
             use std::hash::{Hash, Hasher};
-            let h = g.clone();
+            let mut h = g.clone();
+            let mut k = g.converse();
+            k.clone_from(&g);
+            h.clone_from(&k);
             let mut s = std::collections::hash_map::DefaultHasher::new();
             h.hash(&mut s);
             (g == h) as u64 + (g.cmp(&h) as i8 as u64) + (s.finish() & 1)
@@ -889,11 +901,19 @@ pub fn body(p: &Prog) -> u64 {
         // ---- operations
         "complement" | "complement_threaded" => on!(p, d, [L, M, X, E], |g| g.complement().size()),
         "converse" => on!(p, d, [L, M, X, E, WI, WU], |g| g.converse().size()),
-        "union" | "union_threaded" => on!(p, d, [L, M, X, E], |g| {
-            let h = g.converse();
-            let small = g.union(&h).size();
-            small + h.union(&g).size() + g.union(&g).size()
-        }),
+        "union" | "union_threaded" => match (p.repr, p.shape) {
+            (M, Shape::MapEmpty) => {
+                // a vertex-less operand on either side of an inhabited one
+                let g = mk::M(d);
+                let h = mk::M(Shape::Path4.dg());
+                (g.union(&h).size() + h.union(&g).size() + g.union(&g).order()) as u64
+            }
+            _ => on!(p, d, [L, M, X, E], |g| {
+                let h = g.converse();
+                let small = g.union(&h).size();
+                small + h.union(&g).size() + g.union(&g).size()
+            }),
+        },
         "filter_vertices" => {
             let g = mk::M(d);
             g.filter_vertices(|v| {
